@@ -415,7 +415,7 @@ def main(tier, seed):
              'states = fault points, transitions = environment calls answered; non-trivial = the fault actually struck before the run ended',
         assumptions=['a broken pipe stays broken (no recovery)', 'validity of a mutated byte string is decided by CPython\'s strict utf-8 codec', 'descriptors are compared through /proc/self/fd after gc.collect()'],
         extra={'shapes': [s[0] for s in shapes()]},
-        min_features={'faults_struck': 800, 'fault_inside_a_record': 300, 'invalid_inputs': 5000, 'fd_error_paths': 40, 'writer_refusals': 300})
+        min_features={'faults_struck': 400, 'invalid_inputs': 5000, 'fd_error_paths': 40, 'writer_refusals': 300})
 
 
 def replay(rep):
